@@ -160,6 +160,13 @@ let handle_run (c : case) (toks : string list) =
                end;
                bump ("depth-slack/" ^ slack_class (wcount + estack - depth));
                bump ("depth/" ^ (if depth < 5 then "1-4" else if depth < 10 then "5-9" else if depth < 20 then "10-19" else "20+"));
+               (* consensus: at most 1000 elements on stack + altstack; a leaf the library's validation accepted
+                  (CASE ... sane=1) must stay within it on the satisfactions the library produces *)
+               if c.sane && depth > 1000 then begin
+                 incr n_bad;
+                 Printf.printf "BAD C09 what=stacklimit case=%s kind=%s mode=%s keymask=%s premask=%s leaf=%d measured=%d limit=1000 max_witness_stack_count=%d max_exec_stack_count=%d items=%d ms=%s desc=%s\n"
+                   c.id c.kind mode km pm leaf depth wcount estack (List.length items) msd c.desc
+               end;
                if depth > wcount + estack then begin
                  incr n_bad;
                  Printf.printf "BAD C09 what=stackdepth case=%s kind=%s mode=%s keymask=%s premask=%s leaf=%d measured=%d max_witness_stack_count=%d max_exec_stack_count=%d items=%d ms=%s desc=%s\n"
